@@ -193,7 +193,7 @@ func runCacheHistory(env *fw.Env, c CacheCase, withFaults bool, judgeMinimizeLat
 						if (be != nil) != (o.e != nil) || (be == nil && ba != o.a) {
 							return fw.Failf("", "%s weighted-engine Check(%s) answered %v (err %v) with caches, %v (err %v) without\n%s", what, op.Req, o.a, o.e, ba, be, semkit.Describe(cur))
 						}
-					} else if f := judgeCheckAgainst(cur, op.Req, o.a, o.e, what); f != nil {
+					} else if f := judgeCheckAgainst(cur, op.Req, o.a, o.e, fmt.Sprintf("%s [faulted=%v fired=%v earlier-read-failed=%v]", what, faulted, fired, readFailed)); f != nil {
 						if c.Cfg.Engine == "v2" && f.Signature == "" && o.e != nil {
 							_, unk := semkit.RefCheck(cur, op.Req)
 							f.Signature = semkit.ClassifyV2Error(cur, o.e, unk)
@@ -240,6 +240,9 @@ func runCacheHistory(env *fw.Env, c CacheCase, withFaults bool, judgeMinimizeLat
 				objs, err = s.ListObjects(context.Background(), storeID, modelID, op.LO, consistency(op.HC))
 			}) {
 				return fw.Failf("", "%s ListObjects(%+v) hung\n%s", what, op.LO, semkit.Describe(cur))
+			}
+			if err != nil && readFailed && c.Cfg.Shared && isCancelled(err) {
+				return fw.Failf(SigSharedReplaysReadError, "%s clean ListObjects(%+v) failed with %v after an earlier request's datastore read had failed or been cancelled (shared iterators on)\n%s", what, op.LO, err, semkit.Describe(cur))
 			}
 			if op.HC || judgeMinimizeLatency || !written {
 				truth := semkit.RefListObjects(cur, op.LO)
@@ -316,7 +319,12 @@ func genC08Cycles(t *rapid.T) CacheCase {
 	if rapid.IntRange(0, 3).Draw(t, "subjectZero") > 0 {
 		first.User = "user:0"
 	}
-	rels := []string{"r0", "r1", "r2"}
+	var rels []string
+	for _, r := range w.Model.Type("group").Relations {
+		if r.Name != "parent" {
+			rels = append(rels, r.Name)
+		}
+	}
 	// several short histories, each against empty caches: what a request leaves
 	// in the cache is then met by one or two other requests, not masked by many
 	for h, nh := 0, rapid.IntRange(1, 5).Draw(t, "nHistories"); h < nh; h++ {
@@ -326,7 +334,7 @@ func genC08Cycles(t *rapid.T) CacheCase {
 		for i, n := 0, rapid.IntRange(2, 4).Draw(t, "nOps"); i < n; i++ {
 			r := first
 			r.Object = fmt.Sprintf("group:%d", rapid.IntRange(0, o.MaxIDs-1).Draw(t, "obj"))
-			r.Relation = rels[rapid.IntRange(0, 2).Draw(t, "rel")]
+			r.Relation = rels[rapid.IntRange(0, len(rels)-1).Draw(t, "rel")]
 			if rapid.IntRange(0, 7).Draw(t, "otherSubject") == 0 {
 				r.User = gen.RequestFor(t, w, o).User
 			}
